@@ -1,6 +1,6 @@
 // C15-C18: drive the real lmm::System (MaxMin / FairBottleneck / BmfSystem) through a history of modifications and dump
 // the implementation's own state after every operation.
-//   usage: lmm_drv <maxmin|fairbottleneck|bmf> <selective 0|1> [visited_counter_init]
+//   usage: lmm_drv <maxmin|fairbottleneck|bmf> <selective 0|1> [visited_counter_init|-1] [mod]
 //   input : one history per line, integers; rationals are "num den" (den a power of two -> exact in binary64)
 //     0 bn bd policy limit   constraint_new(bound) ; policy 1 = SHARED, 0 = FATPIPE ; limit -1 = none
 //     1 pn pd bn bd          variable_new(penalty, bound)         (bound -1 1 = none)
@@ -10,9 +10,15 @@
 //     5 c bn bd              update_constraint_bound(c, b)
 //     6 v                    variable_free(v)
 //     7                      solve()
+//     8 t                    (C17 only) age the system up to counter t: what repeating "update_constraint_bound(a constraint
+//                            nobody uses); solve()" does to the selective-update bookkeeping until visited_counter_ == t;
+//                            only applied when the modified set is empty and visited_counter_ <= t < 2^32 (no wrap within the
+//                            jump), else ignored
 //   output: one line per history:  segments "| op nc nv  C*  V*" after every operation, where
 //     C = limit cur bound policy ne (v w)*ne nd (v w)*nd       (enabled list, then disabled list, in list order)
 //     V = alive penalty staged bound value nel (c w)*nel
+//   with the 4th argument "mod" every segment is followed by  M nm (c)*nm counter (visited_ of each variable, -1 if freed)
+//   (modified_constraint_set in list order, visited_counter_, Variable::visited_): used by C17 only.
 //   doubles are printed with %.17g.  Every history runs in a forked child; a crash (xbt_assert, abort of the bmf solver)
 //   prints what was produced so far followed by "| CRASH <status>" (1000+signal; 1014 = SIGALRM: no answer within 5 s).
 #include <cstdint>
@@ -67,6 +73,16 @@ struct Run {
       pd(e.consumption_weight);
     }
   }
+  void dump_mod()
+  {
+    buf += " M";
+    pi((long long)sys->modified_constraint_set.size());
+    for (lmm::Constraint const& c : sys->modified_constraint_set)
+      pi(cid.at(&c));
+    pi((long long)sys->visited_counter_);
+    for (auto* v : vs)
+      pi(v == nullptr ? -1LL : (long long)v->visited_);
+  }
   void dump(int op)
   {
     buf += " |";
@@ -106,6 +122,8 @@ static double q(const std::vector<long long>& v, size_t& i)
   i += 2;
   return n / d;
 }
+
+static bool dump_modified = false;
 
 static void run_history(const std::string& solver, bool selective, long long visited_init, const std::vector<long long>& h)
 {
@@ -182,11 +200,24 @@ static void run_history(const std::string& solver, bool selective, long long vis
             ms->pop_front();
         break;
       }
+      case 8: {
+        long long t = h.at(i++);
+        if (dump_modified && r.sys->modified_constraint_set.empty() && (long long)r.sys->visited_counter_ <= t &&
+            t <= 4294967295LL)
+        {
+          if ((long long)r.sys->visited_counter_ < t)
+            r.sys->modified_ = false; // the last of these solves leaves the system unmodified
+          r.sys->visited_counter_ = (unsigned)t;
+        }
+        break;
+      }
       default:
         buf += " | BADOP";
         return;
     }
     r.dump((int)op);
+    if (dump_modified)
+      r.dump_mod();
     fputs(buf.c_str(), stdout);
     buf.clear();
     fflush(stdout);
@@ -199,6 +230,7 @@ int main(int argc, char** argv)
   std::string solver = argc > 1 ? argv[1] : "maxmin";
   bool selective     = argc > 2 && atoi(argv[2]) != 0;
   long long vinit    = argc > 3 ? atoll(argv[3]) : -1;
+  dump_modified      = argc > 4 && strcmp(argv[4], "mod") == 0;
   int eargc          = 1;
   char* eargv[]      = {argv[0], nullptr};
   simgrid::s4u::Engine e(&eargc, eargv);
